@@ -15,7 +15,7 @@ RULE = ("equivalence classes of forms: lambda in {float, int, np.float64, np.flo
         "point (random covariances, all (N,W) with NW<=20) and end to end (traced runs); values chosen exactly representable in every form of "
         "their class; non-trivial = a class in which >=2 forms completed and were compared; distinct by (problem hash, class)")
 ASSUMPTIONS = ["0-d arrays are not NumPy scalars and are excluded", "digest = SHA-256 over raw bytes of every float/array field and the labels"]
-SHARD_TIMEOUT = {"quick": 900, "thorough": 3400}
+SHARD_TIMEOUT = {"quick": 300, "thorough": 3400}
 
 # values exactly representable in every form of the class
 LAM_CLASSES = [
